@@ -1,10 +1,32 @@
 import Vegeta.Go.Proto
+import Vegeta.Model.AttackTrace
 /-! Driver operations of property C05 (ops are named `c05.<name>`). -/
 namespace Vegeta.Driver.C05
-open Vegeta.Go Vegeta.Go.Proto
+open Vegeta.Go Vegeta.Go.Proto Vegeta.Model.Attack
 
-def handle (_op : String) (args : List String) : Option String :=
-  match _op with
+def pOptNat : P (Option Nat) := do
+  let t ← tok
+  if t == "-" then pure none else match t.toNat? with
+    | some n => pure (some n)
+    | none => failure
+
+def pHit : P Hit := do
+  let seq ← nat
+  let ts ← nat
+  let e ← pOptNat
+  let l ← pOptNat
+  let f ← pOptNat
+  pure { seq := seq, ts := ts, phase := .delivered, entered := e, left := l, fin := f, tgtErr := false }
+
+def handle (op : String) (args : List String) : Option String :=
+  match op with
+  | "c05.hits" => do
+    let (hs, _) ← (listOf pHit).run args
+    -- hits arrive sorted by sequence number; their index must be their sequence number
+    if (hs.map (·.seq)) != List.range hs.length then pure "reject seq"
+    else match checkHits hs with
+      | none => pure "ok"
+      | some k => pure s!"reject {k}"
   | _ => none
 
 end Vegeta.Driver.C05
